@@ -114,11 +114,39 @@ def field_uses(linker, fname, pname, depth=0, seen=None):
             flds |= param_fields(n, pname)
         return {"text": g.get("text"), "fields": sorted(flds), "taken": g.get("taken")}
 
+    def escapes_S(x):
+        items = [y for y in T.flat(x) if y != ("seq", [])]
+        return bool(items) and (items[-1][0] == "diverge" or (items[-1][0] == "ctl" and items[-1][1] in ("ret", "continue", "break")))
+
+    def escapes_E(x):
+        if x[0] == "seq":
+            items = [y for y in x[1] if y != ("seq", [])]
+            return bool(items) and escapes_E(items[-1])
+        return x[0] in ("ret", "continue", "break", "diverge")
+
+    def after_escape(x, guards, esc):
+        """guards that hold for what follows an `if c { ..; return }`: the negation of c (it depends on the same fields)"""
+        while x[0] == "seq":
+            items = [y for y in x[1] if y != ("seq", [])]
+            if not items:
+                return guards
+            x = items[-1]
+        if x[0] != "alt":
+            return guards
+        out = list(guards)
+        for g, b in x[1]:
+            if esc(b):
+                gd = gdesc(g)
+                if gd["fields"]:
+                    out.append({"text": "not yet left by `%s`" % (gd["text"] or ""), "fields": gd["fields"], "taken": None})
+        return out
+
     def visit_S(S, guards):
         k = S[0]
         if k == "seq":
             for x in S[1]:
                 visit_S(x, guards)
+                guards = after_escape(x, guards, escapes_S)
         elif k == "alt":
             for g, x in S[1]:
                 gd = gdesc(g)
@@ -175,6 +203,7 @@ def field_uses(linker, fname, pname, depth=0, seen=None):
         elif k == "seq":
             for x in E[1]:
                 visit_E(x, guards)
+                guards = after_escape(x, guards, escapes_E)
         elif k == "alt":
             for g, x in E[1]:
                 gd = gdesc(g)
